@@ -46,8 +46,8 @@ ASSUMPTIONS = {
             "'change' means: the output's scriptPubKey in the received unsigned transaction commits to an m-of-n script with the inputs' quorum made of exactly one child key of every cosigner account at the path the PSBT states"],
 }
 TIERS = {
-    "C10": {"quick": {"runs": 150, "chunk": 2, "per_run_timeout": 900, "wall_cap": 500, "minimise_budget": 400}, "thorough": {"runs": 4000, "chunk": 4, "per_run_timeout": 1800, "wall_cap": 3000, "minimise_budget": 900}},
-    "C11": {"quick": {"runs": 260, "chunk": 3, "per_run_timeout": 900, "wall_cap": 500, "minimise_budget": 400}, "thorough": {"runs": 8000, "chunk": 5, "per_run_timeout": 1800, "wall_cap": 3000, "minimise_budget": 900}},
+    "C10": {"quick": {"runs": 150, "chunk": 2, "per_run_timeout": 900, "wall_cap": 500, "minimise_budget": 400}, "thorough": {"runs": 4000, "chunk": 4, "per_run_timeout": 1800, "wall_cap": 2400, "minimise_budget": 900}},
+    "C11": {"quick": {"runs": 260, "chunk": 3, "per_run_timeout": 900, "wall_cap": 500, "minimise_budget": 400}, "thorough": {"runs": 8000, "chunk": 5, "per_run_timeout": 1800, "wall_cap": 2400, "minimise_budget": 900}},
 }
 
 POOL = 6
@@ -458,9 +458,11 @@ class Ceremony:
             nw = psbtmap.get(pm["inputs"][k], 0x00) if k < len(pm["inputs"]) else []
             if f is not None and wu and not nw and i["vout"] < len(f["outs"]) and len(wu[0][1]) >= 8:
                 if int.from_bytes(wu[0][1][:8], "little") != f["outs"][i["vout"]]["amount"]:
-                    # only for genuinely segwit inputs is a witness UTXO the legitimate (and unverifiable) record
-                    true_spk = f["outs"][i["vout"]]["spk"]
-                    cause = "_witness_utxo_amount" if (len(true_spk) == 34 and true_spk[:2] == b"\x00\x20") else "_witness_utxo_on_legacy_input"
+                    # a witness UTXO is the legitimate (and, without the previous transaction, unverifiable) record for an input that the
+                    # MESSAGE presents as native p2wsh: whether its amount was altered or the outpoint was moved to another output, nothing
+                    # in the PSBT lets the reader notice. Presented as a p2sh (legacy) output it must have been refused (fix 25).
+                    claimed_spk = wu[0][1][9:] if len(wu[0][1]) > 9 else b""
+                    cause = "_witness_utxo_amount" if (len(claimed_spk) == 34 and claimed_spk[:2] == b"\x00\x20") else "_witness_utxo_on_legacy_input"
                     if getattr(self, "updated_before_review", False):
                         cause += "_after_update_with_prev_tx"
         if known_all:
@@ -1391,7 +1393,9 @@ class Ceremony:
                 if ctx is not None and ctx != raw_tx:
                     fail("C10", "Q3", "final_tx_depends_on_history", "the extracted transaction differs from the canonical schedule's for the same signer set")
         else:
-            if enough and not self.tainted and s.fee >= 1000:
+            # Tx.verify (used by final_tx) refuses a fee below one satoshi per virtual byte: only demand extraction above a safe bound
+            vb_bound = 12 + len(s.inputs) * (60 + 75 * s.m + 35 * s.n) + 45 * len(s.outputs)
+            if enough and not self.tainted and s.fee >= vb_bound:
                 fail("C10", "Q4", "threshold_met_but_no_tx", f"every input carries at least {s.m} signatures by script keys ({per_input}) yet finalize/final_tx raised: {out}")
         return out
 
@@ -1424,7 +1428,9 @@ def execute(plan, prop, trace):
         else:
             raise ValueError(op)
     # Q7 bounded liveness: in a fault-free schedule that reached every signer and returned to C, the final transaction is extracted
-    if plan.get("expect_complete") and "extracted" not in outs:
+    s_ = cer.setup
+    fee_ok = s_.fee >= 12 + len(s_.inputs) * (60 + 75 * s_.m + 35 * s_.n) + 45 * len(s_.outputs)  # final_tx refuses fees below 1 sat/vbyte
+    if plan.get("expect_complete") and fee_ok and "extracted" not in outs:
         fail("C10", "Q7", "fault_free_ceremony_incomplete", f"fault-free {cer.setup.kind} {cer.setup.m}-of-{cer.setup.n} ceremony over schedule '{plan.get('topology')}' did not produce a final transaction: {outs}")
     s = cer.setup
     return {"wallet": f"{s.kind} {s.m}-of-{s.n}", "inputs": len(s.inputs), "outputs": len(s.outputs), "change": s.change is not None, "topology": plan.get("topology"), "creator": plan.get("creator"),
@@ -1449,6 +1455,9 @@ def gen_spend(ch, tier, kinds, max_n):
     total = sum(i["amount"] for i in inputs)
     fee = ch.choice([1000, 2500, 10000])
     n_pay = ch.choice([1, 1, 2, 2, 3])
+    if not ch.chance(0.15):
+        # final_tx refuses a fee below one satoshi per virtual byte: most plans pay enough for their size, some deliberately do not
+        fee = max(fee, 12 + n_in * (60 + 75 * m + 35 * n) + 45 * (n_pay + 1))
     has_change = ch.chance(0.6)
     rest = total - fee
     outs = []
